@@ -290,18 +290,26 @@ def _perfect_packing(dims, cdims, cap=20000):
     nodes = [0]
 
     def smallest_uncovered():
+        # lexicographic order x, y, z. Each coordinate of the answer is 0 or the upper face of a placed box that
+        # touches it, so per candidate x only the boxes cut by that plane matter.
         if not placed:
             return (0, 0, 0)
-        hi = np.array([h for _, h in placed], np.int64)
         lo = np.array([l for l, _ in placed], np.int64)
-        xs = np.unique(np.concatenate([[0], hi[:, 0]]))
-        ys = np.unique(np.concatenate([[0], hi[:, 1]]))
-        zs = np.unique(np.concatenate([[0], hi[:, 2]]))
-        xs, ys, zs = xs[xs < C[0]], ys[ys < C[1]], zs[zs < C[2]]
-        pts = np.stack(np.meshgrid(xs, ys, zs, indexing="ij"), -1).reshape(-1, 3)  # lexicographic order x, y, z
-        cov = np.any(np.all((pts[:, None, :] >= lo[None]) & (pts[:, None, :] < hi[None]), axis=2), axis=1)
-        free = np.flatnonzero(~cov)
-        return None if len(free) == 0 else tuple(int(v) for v in pts[free[0]])
+        hi = np.array([h for _, h in placed], np.int64)
+        for x in np.unique(np.concatenate([[0], hi[:, 0]])):
+            if x >= C[0]:
+                break
+            cut = (lo[:, 0] <= x) & (x < hi[:, 0])
+            blo, bhi = lo[cut][:, 1:], hi[cut][:, 1:]
+            ys = np.unique(np.concatenate([[0], bhi[:, 0]]))
+            zs = np.unique(np.concatenate([[0], bhi[:, 1]]))
+            ys, zs = ys[ys < C[1]], zs[zs < C[2]]
+            pts = np.stack(np.meshgrid(ys, zs, indexing="ij"), -1).reshape(-1, 2)
+            cov = np.any(np.all((pts[:, None, :] >= blo[None]) & (pts[:, None, :] < bhi[None]), axis=2), axis=1)
+            free = np.flatnonzero(~cov)
+            if len(free):
+                return (int(x), int(pts[free[0], 0]), int(pts[free[0], 1]))
+        return None
 
     def rec(k):
         nodes[0] += 1
@@ -381,6 +389,39 @@ def _reset_state_problems(P, S0):
     return out
 
 
+def _solution_for_key(P, key_int):
+    """decode(generator.generate_solution(PRNGKey(key_int))) - the advertised solution of the instance of that key."""
+    if P.env is None or key_int is None:
+        return None
+    import jax
+
+    from jmon.common import decode
+
+    fn = getattr(P, "_bp_solution_fn", None)
+    if fn is None:
+        fn = P._bp_solution_fn = jax.jit(P.env.generator.generate_solution)
+    return decode(fn(jax.random.PRNGKey(int(key_int))))
+
+
+def _solution_problems(P, sol, ini):
+    """generate_solution(key) must be a feasible packing of all items of generator(key) that fills the container."""
+    out = []
+    valid = np.asarray(sol["items_mask"]).astype(bool)
+    same = all(np.array_equal(sol[f], ini[f]) for f in ["items.x_len", "items.y_len", "items.z_len", "items_mask"] + [f"container.{c}" for c in EMS_KEYS])
+    if not same:
+        out.append("call_returns_solution_items: generator(key) and generate_solution(key) describe different instances")
+    if not np.array_equal(np.asarray(sol["items_placed"]).astype(bool), valid):
+        out.append("solution_places_all_items: items_placed != items_mask in generate_solution")
+        return out
+    probs, _, _ = _feasibility(sol)
+    out.extend("solution_feasible: " + p for p in probs)
+    cv = int(_vol(_dims(_space(sol, "container"))))
+    tot = int(_vol(_items(sol))[valid].sum())
+    if tot != cv:
+        out.append(f"solution_fills_container: packed volume {tot} != container volume {cv}")
+    return out
+
+
 def instance(P, S0, ev):
     out = _reset_state_problems(P, S0)
     P.hit("reset_state_well_formed")
@@ -394,8 +435,14 @@ def instance(P, S0, ev):
         tot, cv = int(_vol(items[valid]).sum()), int(_vol(cd))
         if tot != cv:
             out.append(f"volumes_sum_to_container: item volumes sum to {tot}, container volume is {cv}")
-        else:
-            res, _ = _perfect_packing(items[valid], cd)
+        # certificate: the generator's own solution for this very key, judged by the feasibility rules above
+        sol = _solution_for_key(P, ev.key_int)
+        if sol is not None:
+            P.hit("solution_certificate_checked")
+            out.extend(_solution_problems(P, sol, S0))
+        # independent cross-check on small instances: search for a perfect packing from the item list alone
+        if tot == cv and int(valid.sum()) <= 12:
+            res, _ = _perfect_packing(items[valid], cd, cap=4000)
             if res is None:
                 P.hit("tiling_search_undecided")
             elif res:
@@ -423,25 +470,14 @@ def generator_checks(P, env, rng, tier):
     gen = env.generator
     n_keys = 6 if tier == "quick" else 40
     if P.params["perfect"]:
+        f_sol, f_ini = jax.jit(gen.generate_solution), jax.jit(gen.__call__)
         for _ in range(n_keys):
             k = int(rng.integers(0, 2**31 - 1))
             key = jax.random.PRNGKey(k)
-            sol = decode(gen.generate_solution(key))
-            ini = decode(gen(key))
+            sol = decode(f_sol(key))
+            ini = decode(f_ini(key))
             P.hit("generate_solution_checked")
-            valid = np.asarray(sol["items_mask"]).astype(bool)
-            if not np.array_equal(np.asarray(sol["items_placed"]).astype(bool), valid):
-                out.append(f"solution_places_all_items: key {k}: items_placed != items_mask in generate_solution")
-                continue
-            probs, _, _ = _feasibility(sol)
-            out.extend(f"solution_feasible: key {k}: {p}" for p in probs)
-            cv = int(_vol(_dims(_space(sol, "container"))))
-            tot = int(_vol(_items(sol))[valid].sum())
-            if tot != cv:
-                out.append(f"solution_fills_container: key {k}: packed volume {tot} != container volume {cv}")
-            same = all(np.array_equal(sol[f], ini[f]) for f in ["items.x_len", "items.y_len", "items.z_len", "items_mask"] + [f"container.{c}" for c in EMS_KEYS])
-            if not same:
-                out.append(f"call_returns_solution_items: key {k}: generator(key) and generate_solution(key) describe different instances")
+            out.extend(f"{p.split(':', 1)[0]}: key {k}:{p.split(':', 1)[1]}" for p in _solution_problems(P, sol, ini))
             out.extend(f"call_unpacked: key {k}: {p}" for p in _reset_state_problems(P, ini))
     if P.params["gen"] == "csv":
         # independent round trip: a file written here must come back item for item (quantities expanded in order)
